@@ -15,6 +15,8 @@ struct GMGPolarVerif {
 static int pick_nr(Rng& rng, int max_nr) { static const std::vector<int> s = {5, 7, 9, 11, 13, 17, 21, 25, 33, 65}; int v; do v = rng.pick(s); while (v > max_nr); return v; }
 static int pick_nt(Rng& rng, int max_nt) { static const std::vector<int> s = {4, 6, 8, 10, 12, 16, 20, 24, 32, 64, 128}; int v; do v = rng.pick(s); while (v > max_nt); return v; } // powers of two and not (two wrap code paths)
 
+static std::vector<double> vec_of_v(const Vector<double>& v) { return std::vector<double>(v.begin(), v.end()); }
+
 static int mode_residual(int cases, int max_nr, int max_nt)
 {
     Rng rng(seed_from_env());
@@ -56,6 +58,7 @@ static int mode_residual(int cases, int max_nr, int max_nt)
 }
 
 // ---------------------------------------------------------------------------------------------- transfer
+static void transfer_big(Rng& rng, int npairs);
 // every transfer entry point on harness-built level pairs: both splits, non-uniform spacing, 1 and 4 threads
 static int mode_transfer(int cases, int max_nr, int max_nt)
 {
@@ -119,8 +122,57 @@ static int mode_transfer(int cases, int max_nr, int max_nt)
             down("inject", [&](Vector<double>& o) { I.applyInjection(fine, coarse, o, yfv); });
         }
     }
+    transfer_big(rng, cases >= 100 ? 12 : 3);
     printf("end\n");
     return 0;
+}
+
+// transfers above the 10 000-node threshold at which the optimised loops really fork (`#pragma omp parallel if (n > 10'000)`), on
+// non-uniform radii AND angles, for several thread counts incl. counts that do not divide the loop lengths: every optimised entry point
+// against its reference implementation on the same input, and against its own 1-thread result
+static void transfer_big(Rng& rng, int npairs)
+{
+    const int shapes[][2] = {{65, 160}, {97, 128}, {49, 216}, {81, 136}};
+    for (int c = 0; c < npairs; c++) {
+        int nr = shapes[c % 4][0], nt = shapes[c % 4][1];
+        Problem p = make_problem(rng, nr, nt);
+        make_grid_arrays(rng, nr, nt, p.R0, p.Rmax, p.radii, p.angles, true);
+        // force non-uniform angles (antipodally symmetric): jitter every inner angle of the first half
+        { int half = nt / 2; for (int j = 1; j < half; j++) { p.angles[j] = ((double)j + 0.6 * (rng.unit() - 0.5)) / half * M_PI; p.angles[j + half] = p.angles[j] + M_PI; } }
+        std::optional<double> split = rng.coin(0.5) ? std::optional<double>(rng.uniform(p.R0, p.Rmax)) : std::nullopt;
+        Chain ch = make_chain(p, 2, true, true, split);
+        if (ch.levels.size() < 2) continue;
+        const Level& fine = *ch.levels[0];
+        const Level& coarse = *ch.levels[1];
+        const PolarGrid& gf = fine.grid();
+        const PolarGrid& gc = coarse.grid();
+        std::vector<double> xc = random_field(rng, gc.numberOfNodes()), yf = random_field(rng, gf.numberOfNodes());
+        Vector<double> xcv = from_rowmajor(gc, xc), yfv = from_rowmajor(gf, yf);
+        std::map<std::string, std::vector<double>> one_thread;
+        for (int threads : {1, 2, 3, 4, 7}) {
+            std::vector<int> tpl = {threads, threads};
+            Interpolation I(tpl, p.dirbc);
+            auto run = [&](const char* name, bool up, auto fn, auto fn_ref) {
+                const PolarGrid& go = up ? gf : gc;
+                Vector<double> out(go.numberOfNodes()), ref(go.numberOfNodes());
+                fn(out);
+                fn_ref(ref);
+                double dref = 0, d1 = 0, scale = 0;
+                std::vector<double> o = vec_of_v(out);
+                for (int i = 0; i < out.size(); i++) { dref = std::max(dref, std::abs(out[i] - ref[i])); scale = std::max(scale, std::abs(ref[i])); }
+                if (threads == 1) one_thread[name] = o;
+                else for (size_t i = 0; i < o.size(); i++) d1 = std::max(d1, std::abs(o[i] - one_thread[name][i]));
+                printf("TRBIG op=%s threads=%d nrF=%d ntF=%d ncF=%d maxdiff_vs_reference=%s maxdiff_vs_1thread=%s scale=%s\n", name, threads, gf.nr(), gf.ntheta(), gf.numberSmootherCircles(), hex(dref).c_str(),
+                       hex(d1).c_str(), hex(scale).c_str());
+            };
+            run("prolong", true, [&](Vector<double>& o) { I.applyProlongation(coarse, fine, o, xcv); }, [&](Vector<double>& o) { I.applyProlongation0(coarse, fine, o, xcv); });
+            run("exprolong", true, [&](Vector<double>& o) { I.applyExtrapolatedProlongation(coarse, fine, o, xcv); }, [&](Vector<double>& o) { I.applyExtrapolatedProlongation0(coarse, fine, o, xcv); });
+            run("restrict", false, [&](Vector<double>& o) { I.applyRestriction(fine, coarse, o, yfv); }, [&](Vector<double>& o) { I.applyRestriction0(fine, coarse, o, yfv); });
+            run("exrestrict", false, [&](Vector<double>& o) { I.applyExtrapolatedRestriction(fine, coarse, o, yfv); }, [&](Vector<double>& o) { I.applyExtrapolatedRestriction0(fine, coarse, o, yfv); });
+            run("fmg", true, [&](Vector<double>& o) { I.applyFMGInterpolation(coarse, fine, o, xcv); }, [&](Vector<double>& o) { std::vector<int> t1 = {1, 1}; Interpolation I1(t1, p.dirbc); I1.applyFMGInterpolation(coarse, fine, o, xcv); });
+            run("inject", false, [&](Vector<double>& o) { I.applyInjection(fine, coarse, o, yfv); }, [&](Vector<double>& o) { std::vector<int> t1 = {1, 1}; Interpolation I1(t1, p.dirbc); I1.applyInjection(fine, coarse, o, yfv); });
+        }
+    }
 }
 
 // ---------------------------------------------------------------------------------------------- smoothers
